@@ -8,6 +8,7 @@ import (
 	"os"
 	"path/filepath"
 	"strings"
+	"sync"
 	"testing"
 	"time"
 	"unicode"
@@ -291,7 +292,7 @@ func run(t interface{ Fatalf(string, ...any) }, c *Case) {
 	}
 }
 
-var decorations = []string{"", "", " ", "_", "1", "9x", " Name", "-id", ".", "é", "ß", "日本", "Ä", "(%)", "\t", "A", "Z", "zz", " ", "__"}
+var decorations = []string{"", "", " ", "_", "1", "9x", " Name", "-id", ".", "é", "ß", "日本", "Ä", "(%)", "\t", "A", "Z", "zz", " ", "__", "\u212a", "Temp \u212a", "ſ", "Σ"}
 var fieldPool = []string{"", "x", "1", "a,b", "say \"hi\"", "\"", "\"\"", "line1\nline2", "\n", "é", "日本", "💩", " lead", "trail ", " ", "a b", "0", "NULL", "\xff", "tab\there", ",", ",,", "\"quoted\"", "'", ";", "#c"}
 
 func drawCase(t *rapid.T, maxRecords int) *Case {
@@ -313,10 +314,24 @@ func drawCase(t *rapid.T, maxRecords int) *Case {
 		n = rapid.SampledFrom([]int{999, 1000, 1001, 1002, 2100}).Draw(t, "nmany")
 	}
 	small := rapid.IntRange(0, 2).Draw(t, "smallalphabet") > 0
+	lensweep := rapid.IntRange(0, 5).Draw(t, "lensweep") == 0
+	sweepStart := rapid.SampledFrom([]int{1, 41, 81, 121, 161, 201, 241}).Draw(t, "sweepstart")
+	if lensweep && n < 400 {
+		n = 400
+	}
 	for i := 0; i < n; i++ {
 		rec := make([]string, ncols)
 		for j := range rec {
 			switch {
+			case lensweep:
+				// len(column)+len(field) sweeps a window of lengths; ten
+				// consecutive records differ in the last byte only
+				want := sweepStart + (i/10)%40 - len(norm(c.Header[j]))
+				d := fmt.Sprint(i)
+				if want > len(d) {
+					d = strings.Repeat("0", want-len(d)) + d
+				}
+				rec[j] = d
 			case n > 400:
 				rec[j] = fmt.Sprintf("v%d", (i*(j+3))%(7+j*400))
 			case small:
@@ -341,7 +356,115 @@ func drawCase(t *rapid.T, maxRecords int) *Case {
 	return c
 }
 
+// ---------------------------------------------------------------- concurrent creates on one output
+
+// RaceCase: several `updog create` processes (modes drawn) with different CSVs
+// and the SAME output path run at once.  Exactly one may succeed; the output
+// must then be exactly that one's index (an existing output is never touched).
+type RaceCase struct {
+	Procs []bool // big mode per process
+	Rows  int
+}
+
+func (c *RaceCase) Summary() string {
+	return fmt.Sprintf("concurrent creates on one output: modes(big)=%v, process g ingests %d+g records tagged g", c.Procs, c.Rows)
+}
+
+func raceOracle(c *RaceCase) error {
+	dir := fix.CaseDir()
+	defer os.RemoveAll(dir)
+	out := filepath.Join(dir, "out.updog")
+	var datas [][]model.Row
+	for g := range c.Procs {
+		var b bytes.Buffer
+		b.WriteString("w,i\n")
+		var rows []model.Row
+		for i := 0; i < c.Rows+g; i++ {
+			fmt.Fprintf(&b, "writer%d,%d\n", g, i%3)
+			rows = append(rows, model.Row{"w": fmt.Sprintf("writer%d", g), "i": fmt.Sprint(i % 3)})
+		}
+		datas = append(datas, rows)
+		if err := os.WriteFile(filepath.Join(dir, fmt.Sprintf("in%d.csv", g)), b.Bytes(), 0o644); err != nil {
+			return fmt.Errorf("INFRA: %v", err)
+		}
+	}
+	res := make([]fix.CLIResult, len(c.Procs))
+	var wg sync.WaitGroup
+	start := make(chan struct{})
+	for g, big := range c.Procs {
+		wg.Add(1)
+		go func(g int, big bool) {
+			defer wg.Done()
+			args := []string{"create", "-o", out}
+			if big {
+				args = append(args, "-b")
+			}
+			args = append(args, filepath.Join(dir, fmt.Sprintf("in%d.csv", g)))
+			<-start
+			res[g] = fix.RunCLI(dir, 40*time.Second, []string{"TMPDIR=" + dir}, args...)
+		}(g, big)
+	}
+	close(start)
+	wg.Wait()
+	var winners []int
+	for g, r := range res {
+		if r.Slow {
+			panic("INFRA: updog create slow")
+		}
+		if r.Hung {
+			return fmt.Errorf("process %d never exits: %s", g, clip(r.Out))
+		}
+		if r.Exit == 0 {
+			winners = append(winners, g)
+		}
+	}
+	if len(winners) != 1 {
+		return fmt.Errorf("%d of %d concurrent `updog create` runs on one output exited 0 (processes %v); exactly one can have created it, for the others it already existed", len(winners), len(c.Procs), winners)
+	}
+	idx, _, err := fix.Open(out, fix.OpenCfg{CacheCap: -1})
+	if err != nil {
+		return fmt.Errorf("output of the one successful create (process %d) does not open: %v", winners[0], err)
+	}
+	perr := fix.ProbeAll(idx, model.NewData(datas[winners[0]]), fix.ProbeOpts{})
+	fix.Safe(idx.Close)
+	if perr != nil {
+		return fmt.Errorf("the output is not the index of the one successful create (process %d): a failing run touched it: %v", winners[0], perr)
+	}
+	return nil
+}
+
+func runRace(t interface{ Fatalf(string, ...any) }, c *RaceCase) {
+	evid.Case(true, c.Summary(), "concurrent-creates")
+	err := raceOracle(c)
+	if err != nil && strings.HasPrefix(err.Error(), "INFRA:") {
+		panic(err.Error())
+	}
+	if err != nil {
+		fix.Fail(t, prop, "race", c, c.Summary(), err)
+	}
+}
+
+func drawRace(t *rapid.T) *RaceCase {
+	c := &RaceCase{Rows: rapid.SampledFrom([]int{0, 3, 500, 1500, 6000}).Draw(t, "rows")}
+	n := rapid.IntRange(2, 5).Draw(t, "procs")
+	for i := 0; i < n; i++ {
+		c.Procs = append(c.Procs, rapid.Bool().Draw(t, "big"))
+	}
+	return c
+}
+
 func replay(cf *evid.CaseFile) error {
+	if cf.Sub == "race" {
+		var c RaceCase
+		if err := evid.Decode(cf.Gob, &c); err != nil {
+			return err
+		}
+		var err error
+		for i := 0; i < 5 && err == nil; i++ {
+			err = raceOracle(&c)
+		}
+		return err
+	}
 	var c Case
 	if err := evid.Decode(cf.Gob, &c); err != nil {
 		return err
@@ -352,6 +475,7 @@ func replay(cf *evid.CaseFile) error {
 func TestQuick(t *testing.T) {
 	fix.Pinned(t, prop, replay)
 	fix.Check(t, "create", 240, func(rt *rapid.T) { run(rt, drawCase(rt, 60)) })
+	fix.Check(t, "race", 25, func(rt *rapid.T) { runRace(rt, drawRace(rt)) })
 }
 
 func TestThorough(t *testing.T) {
@@ -359,6 +483,7 @@ func TestThorough(t *testing.T) {
 		fix.Pinned(t, prop, replay)
 	}
 	fix.Check(t, "create", 4000, func(rt *rapid.T) { run(rt, drawCase(rt, 300)) })
+	fix.Check(t, "race", 150, func(rt *rapid.T) { runRace(rt, drawRace(rt)) })
 }
 
 func TestReplay(t *testing.T) {
